@@ -65,9 +65,8 @@ Lemma default_lookup : forall g x, resolve [] (default_ctx g) x = dget x g.
 Proof. intros g x. reflexivity. Qed.
 
 (* ------------------------------------------------------------------ import *)
-Definition intact (c : ctx) : Prop :=
-  c_gkeys c = dkeys (c_globals c) /\
-  forall k, mem k (c_gkeys c) = true -> dget k (c_parent c) = dget k (c_globals c).
+(* every context the engine builds keeps the keys of the globals mapping it was given *)
+Definition ctx_wf (c : ctx) : Prop := c_gkeys c = dkeys (c_globals c).
 
 Lemma mem_cons : forall x k r, mem x (k :: r) = N.eqb x k || mem x r.
 Proof. reflexivity. Qed.
@@ -98,44 +97,37 @@ Proof.
     apply N.eqb_eq in E. subst x. rewrite Ef. now rewrite andb_false_r.
 Qed.
 
-Lemma import_lookup : forall c g, intact c ->
-  exists c', import_ctx c g = Ok c' /\
+Lemma import_lookup : forall c g, ctx_wf c ->
+  exists c', import_ctx c g = Ok c' /\ ctx_wf c' /\
     forall x, resolve [] c' x = match dget x g with Some v => Some v | None => dget x (c_globals c) end.
 Proof.
-  intros c g [Hk Hv]. unfold import_ctx.
+  intros c g Hk. unfold ctx_wf in Hk. unfold import_ctx.
   set (keys := filter (fun k => negb (mem k (dkeys g))) (c_gkeys c)).
   assert (Hmem : forall x, mem x keys = mem x (c_gkeys c) && negb (mem x (dkeys g))) by (intros; apply mem_filter).
   assert (Hspec : forall x, match dget x g with Some v => Some v | None => dget x (c_globals c) end =
                             match dget x g with Some v => Some v
-                            | None => if mem x keys then dget x (c_parent c) else None end).
+                            | None => if mem x keys then dget x (c_globals c) else None end).
   { intros x. destruct (dget x g) eqn:Eg; [reflexivity|].
     rewrite Hmem, mem_dkeys, Eg. cbn [negb]. rewrite andb_true_r.
-    destruct (mem x (c_gkeys c)) eqn:Em; [now rewrite Hv|].
+    destruct (mem x (c_gkeys c)) eqn:Em; [reflexivity|].
     rewrite Hk, mem_dkeys in Em. destruct (dget x (c_globals c)); [discriminate|reflexivity]. }
   destruct keys as [|k0 kr] eqn:Ekeys.
-  - exists (default_ctx g). split; [reflexivity|]. intros x. rewrite Hspec, default_lookup.
+  - exists (default_ctx g). split; [reflexivity|]. split; [reflexivity|]. intros x. rewrite Hspec, default_lookup.
     destruct (dget x g); reflexivity.
-  - destruct (pick_parent_ok (k0 :: kr) (c_parent c)) as [d [Hd Hx]].
+  - destruct (pick_parent_ok (k0 :: kr) (c_globals c)) as [d [Hd Hx]].
     { intros k Hin. rewrite Hmem in Hin. apply andb_true_iff in Hin. destruct Hin as [Hin _].
-      rewrite (Hv k Hin). rewrite Hk, mem_dkeys in Hin. destruct (dget k (c_globals c)); [discriminate|discriminate]. }
-    rewrite Hd. eexists. split; [reflexivity|]. intros x. rewrite Hspec.
+      rewrite Hk, mem_dkeys in Hin. destruct (dget k (c_globals c)); [discriminate|discriminate]. }
+    rewrite Hd. eexists. split; [reflexivity|]. split; [reflexivity|]. intros x. rewrite Hspec.
     unfold resolve, new_context. cbn [dget c_vars c_parent]. rewrite dget_dupdate, Hx.
     destruct (mem x (k0 :: kr)) eqn:Em.
     + rewrite Hmem in Em. apply andb_true_iff in Em. destruct Em as [_ Em].
       rewrite mem_dkeys in Em. destruct (dget x g); [discriminate|].
-      destruct (dget x (c_parent c)); reflexivity.
+      destruct (dget x (c_globals c)); reflexivity.
     + destruct (dget x g); reflexivity.
 Qed.
 
-(* contexts made by the engine for a top-level render, a default module or an import keep the
-   guard, provided the render data does not reuse a key of the template's globals *)
-Lemma intact_root : forall data g,
-  (forall k, mem k (dkeys g) = true -> dget k data = None) ->
-  intact (new_context (Some data) false g []).
-Proof.
-  intros data g H. split; [reflexivity|]. intros k Hk. cbn [new_context c_parent c_gkeys c_globals] in *.
-  rewrite dget_dupdate, (H k Hk). reflexivity.
-Qed.
+Lemma new_context_wf : forall vars shared g L, ctx_wf (new_context vars shared g L).
+Proof. intros. reflexivity. Qed.
 
 (* ------------------------------------------------------------------ selection *)
 Lemma select_first : forall ts names, select_template ts names = first_existing ts names.
